@@ -269,6 +269,8 @@ func (m *Machine) simpRec(t *Term, vals map[*Term]*Term, memo map[*Term]*Term, u
 			r = ts.Concat(args...)
 		case OStrLen:
 			r = ts.StrLen(args[0])
+		case OStrIsIdent:
+			r = ts.StrIsIdent(args[0])
 		}
 	}
 	memo[t] = r
